@@ -89,11 +89,24 @@ def apply(nc, a):
 PROBES = [("C", 4), ("B#", 3), ("Db", 4), ("E", 4), ("G", 5), ("C", 5)]
 
 
+_RESPELL = {"C": ("B#", -1), "D": ("C##", 0), "E": ("Fb", 0), "F": ("E#", 0), "G": ("F##", 0), "A": ("G##", 0), "B": ("Cb", 1),
+            "C#": ("Db", 0), "D#": ("Eb", 0), "F#": ("Gb", 0), "G#": ("Ab", 0), "A#": ("Bb", 0),
+            "Db": ("C#", 0), "Eb": ("D#", 0), "Gb": ("F#", 0), "Ab": ("G#", 0), "Bb": ("A#", 0),
+            "B#": ("C", 1), "E#": ("F", 0), "Cb": ("B", -1), "Fb": ("E", 0)}
+
+
+def respelled(x):
+    """the same note under another name (plain table; names not in the table are kept)"""
+    n2, d = _RESPELL.get(txt(x["n"]), (txt(x["n"]), 0))
+    return {"n": list(n2), "o": x["o"] + d}
+
+
 def query(nc):
     cur = proj(nc)
     eqs = []
     variants = [list(reversed(cur)), cur[:-1], cur + [{"n": ["A"], "o": 7}],
-                [dict(x, o=x["o"]) for x in cur[:-1]] + ([{"n": ["A"], "o": 7}] if cur else [])]
+                [dict(x, o=x["o"]) for x in cur[:-1]] + ([{"n": ["A"], "o": 7}] if cur else []),
+                [respelled(x) for x in cur], [respelled(x) for x in cur[:1]] + cur[1:]]      # the same pitches under other names
     for v in variants:
         eqs.append({"other": v, "r": boolean(nc == other(v))})
     return {
